@@ -3,12 +3,14 @@
 
   * `sound_is`: `typeOfIs` with its static folding (the tested type is not an element of the operand's entity LUB ↦ False,
     the LUB is exactly that type ↦ True).
-  * `entityTagType_sound`: the tag type `entityTagType` computes for a LUB all of whose elements declare tags is an upper
-    bound of every declared tag type.
-  * `sound_hasTag`: False when no element of the LUB declares tags, otherwise Bool with a TAG capability (access path of
+  * `entityTagType_sound`: the tag type `entityTagType` computes for a LUB is an upper bound of the tag type of every
+    element that declares tags (elements without tags are skipped).
+  * `sound_hasTag`: False when NO element of the LUB declares tags, otherwise Bool with a TAG capability (access path of
     the operand, string-literal key).  `sound_getTag`: a value of the tag type — no `tag` error on a present entity — or
-    the `entity` error when the entity is absent.
-  Both need (D7): the elements of the LUB all declare tags or none does (`mixedTags`; `C15_hasTag_mixed_counterexample`).
+    the `entity` error when the entity is absent: the capability says the tag is present, so the entity's type is one of
+    the elements that declare tags (`EntityOK.tags`).
+  The former restriction (D7) — the elements of the LUB all declare tags or none does — is gone with the repair of
+  `hastag-lub-mixed-tags`.
 -/
 import CedarGoProofs.Lemmas.C15EntAttr
 namespace CedarGo.Validate
@@ -80,39 +82,39 @@ theorem eval_getTag_entity {l r : Expr} {ty id k : String} (hl : eval l env = .o
   | none => rfl
   | some d => simp only []; cases kvGet k d.tags <;> rfl
 
-/-- not mixed and not all: no element of the LUB declares tags -/
-theorem no_tags_of_not_mixed {tys : List String} (hmix : mixedTags Γ tys = false) (hall : entityHasTags Γ tys = false)
+/-- `entityHasTags` answers `false`: no element of the LUB declares tags -/
+theorem no_tags_of_not_any {tys : List String} (hany : entityHasTags Γ tys = false)
     {t : String} (ht : t ∈ tys) : (declOf Γ t).tags = none := by
-  simp only [mixedTags, hall, Bool.not_false, Bool.and_true, List.any_eq_false] at hmix
-  have := hmix t ht
+  simp only [entityHasTags, List.any_eq_false] at hany
+  have := hany t ht
   cases hd : (declOf Γ t).tags with
   | none => rfl
   | some x => simp [hd] at this
 
-/-- not mixed and one element declares tags: all do -/
-theorem all_tags_of_not_mixed {tys : List String} (hmix : mixedTags Γ tys = false) {t : String} (ht : t ∈ tys)
-    (hsome : (declOf Γ t).tags.isSome = true) : entityHasTags Γ tys = true := by
-  cases hall : entityHasTags Γ tys with
-  | true => rfl
-  | false => rw [no_tags_of_not_mixed hmix hall ht] at hsome; simp at hsome
-
 theorem entityTagType_sound {s : Bool} : ∀ {tys : List String} {acc r : Ty}, entityTagType true s Γ acc tys = some r →
-    (∀ t ∈ tys, (declOf Γ t).tags.isSome = true) →
     (∀ v, HasTy v acc → HasTy v r) ∧ (∀ t ∈ tys, ∀ t', (declOf Γ t).tags = some t' → ∀ v, HasTy v t' → HasTy v r)
-  | [], acc, r, h, _ => by
+  | [], acc, r, h => by
     simp only [entityTagType, Option.some.injEq] at h; subst h
     exact ⟨fun _ hv => hv, by simp⟩
-  | t :: ts, acc, r, h, hall => by
+  | t :: ts, acc, r, h => by
     simp only [entityTagType] at h
     cases ht : (declOf Γ t).tags with
-    | none => have := hall t (by simp); simp [ht] at this
+    | none =>
+      -- an element without tags is skipped
+      simp only [ht] at h
+      obtain ⟨h1, h2⟩ := entityTagType_sound h
+      refine ⟨h1, ?_⟩
+      intro t0 ht0 t' hd v hv
+      rcases List.mem_cons.mp ht0 with rfl | ht0
+      · rw [ht] at hd; cases hd
+      · exact h2 t0 ht0 t' hd v hv
     | some tagTy =>
       simp only [ht] at h
       cases hu : lub true s acc tagTy with
       | none => simp [hu] at h
       | some u =>
         simp only [hu] at h
-        obtain ⟨h1, h2⟩ := entityTagType_sound h (fun t' ht' => hall t' (by simp [ht']))
+        obtain ⟨h1, h2⟩ := entityTagType_sound h
         refine ⟨fun v hv => h1 v (lub_sound_left s _ _ _ v hu hv), ?_⟩
         intro t0 ht0 t' hd v hv
         rcases List.mem_cons.mp ht0 with rfl | ht0
@@ -170,12 +172,7 @@ theorem sound_hasTag (hΓ : EnvOK Γ env) {l r : Expr} {caps caps' : Caps} {τ :
       unfold hasTagResult at h
       split at h
       · rename_i tys
-        simp only [Bool.true_and] at h
-        split at h
-        · simp at h
-        · rename_i hmix
-          have hmix' : mixedTags Γ tys = false := by simpa using hmix
-          have hops := tag_operands hsl hsr
+        · have hops := tag_operands hsl hsr
           -- errors of the operands propagate
           have herr : ∀ (τ' : Ty) (c' : Caps),
               (∃ k, eval l env = .error k ∧ Allowed k) ∨
@@ -186,7 +183,7 @@ theorem sound_hasTag (hΓ : EnvOK Γ env) {l r : Expr} {caps caps' : Caps} {τ :
             · simp only [eval, hk, bind, Except.bind]; exact hak
             · simp only [eval, hk, hk2, bind, Except.bind, toEntity]; exact hak
           split at h
-          · -- some (hence every) element of the LUB has no tags: False
+          · -- no element of the LUB declares tags: False
             rename_i hall
             have hall' : entityHasTags Γ tys = false := by simpa using hall
             simp only [Except.ok.injEq, Prod.mk.injEq] at h
@@ -206,7 +203,7 @@ theorem sound_hasTag (hΓ : EnvOK Γ env) {l r : Expr} {caps caps' : Caps} {τ :
                 | some x =>
                   exfalso
                   obtain ⟨t', ht', _⟩ := (hΓ.store _ _ hg).tags s x hx
-                  rw [no_tags_of_not_mixed hmix' hall' hm] at ht'
+                  rw [no_tags_of_not_any hall' hm] at ht'
                   simp at ht'
           · simp only [Except.ok.injEq, Prod.mk.injEq] at h
             obtain ⟨rfl, rfl⟩ := h
@@ -253,14 +250,10 @@ theorem sound_getTag (hΓ : EnvOK Γ env) {l r : Expr} {caps caps' : Caps} {τ :
       unfold getTagResult at hres
       split at hres
       · rename_i tys
-        simp only [Bool.true_and] at hres
-        split at hres
-        · simp at hres
-        · rename_i hmix
-          have hmix' : mixedTags Γ tys = false := by simpa using hmix
-          split at hres
+        · split at hres
           · simp at hres
           · rename_i tagTy0 htag
+            dsimp only at hres
             split at hres
             rotate_left
             · simp at hres
@@ -286,10 +279,7 @@ theorem sound_getTag (hΓ : EnvOK Γ env) {l r : Expr} {caps caps' : Caps} {τ :
                 obtain ⟨x, hx⟩ := hhas
                 simp only [hx]
                 obtain ⟨t', ht', hxt⟩ := (hΓ.store _ _ hg).tags _ x hx
-                have hall := all_tags_of_not_mixed hmix' hm (by rw [ht']; rfl)
-                have hall' : ∀ t ∈ tys, (declOf Γ t).tags.isSome = true := by
-                  simpa [entityHasTags] using hall
-                exact ⟨(entityTagType_sound htag hall').2 ty hm t' ht' x hxt, fun _ => hc⟩
+                exact ⟨(entityTagType_sound htag).2 ty hm t' ht' x hxt, fun _ => hc⟩
       · simp at hres
 
 end entis
